@@ -27,7 +27,25 @@ var probeImports = map[string][]string{
 	LevelTest: {"bytes", "encoding/json", "errors", "fmt", "os", "reflect", "runtime/debug", "sort", "strconv", "strings", "sync", "time", "unicode/utf8", "crypto/sha256", "encoding/hex", "testing"},
 }
 
-func probeModule(dir, level string) {
+// probeModulePath picks a module path for the probe that GOGARBLE selects
+// (garble refuses to build when nothing matches).
+func probeModulePath(gogarble string) string {
+	if gogarble == "" || gogarble == "*" {
+		return "zqsimple/verifprobe"
+	}
+	first, _, _ := strings.Cut(gogarble, ",")
+	first = strings.NewReplacer("*", "x", "?", "x", "[", "x", "]", "x").Replace(first)
+	if !strings.Contains(first, ".") && !strings.Contains(first, "/") {
+		// a std-looking pattern: use the default probe path with the next pattern, if any
+		if _, rest, ok := strings.Cut(gogarble, ","); ok {
+			return probeModulePath(rest)
+		}
+		return "zqsimple/verifprobe"
+	}
+	return first + "/verifprobe"
+}
+
+func probeModule(dir, level, gogarble string) {
 	var b strings.Builder
 	b.WriteString("package main\n\n")
 	imps := probeImports[level]
@@ -40,7 +58,7 @@ func probeModule(dir, level string) {
 	}
 	b.WriteString("func main() { println(\"probe\") }\n")
 	files := map[string]string{
-		"go.mod":  "module zqsimple/verifprobe\n\ngo 1.26\n",
+		"go.mod":  "module " + probeModulePath(gogarble) + "\n\ngo 1.26\n",
 		"main.go": b.String(),
 	}
 	if level == LevelTest {
@@ -77,7 +95,7 @@ func PlainBase() string {
 		box := NewBox(filepath.Join(dir, "box"), "")
 		box.GoCache = filepath.Join(dir, "gocache")
 		mod := filepath.Join(dir, "probe")
-		probeModule(mod, LevelTest)
+		probeModule(mod, LevelTest, "")
 		// The same listing garble performs: std deps plus everything garble links against.
 		r := box.Go(mod, nil, "build", "-trimpath", "-buildvcs=false", "-o", filepath.Join(dir, "probe.bin"), ".")
 		if !r.OK() {
@@ -150,7 +168,7 @@ func ConfigBase(garbleBin, garbleHash string, cfg Config, level string) Base {
 		box := NewBox(filepath.Join(dir, "box"), garbleBin)
 		box.GoCache, box.GarbleCache = base.GoCache, base.GarbleCache
 		mod := filepath.Join(dir, "probe")
-		probeModule(mod, level)
+		probeModule(mod, level, cfg.GOGARBLE)
 		// Built with -debugdir so that the cache also holds the debug artifacts of
 		// the std packages: later -debugdir builds then need no forced full rebuild.
 		r := box.GarbleX(cfg, mod, []string{"-debugdir=" + filepath.Join(dir, "probe-debugdir")}, nil, "build", "-o", filepath.Join(dir, "probe.bin"), ".")
